@@ -596,7 +596,7 @@ def normSqr (x : Tensor α) : Except PyErr (Tensor α) := do
 
 end ring
 
-/-! ### division, modulus, sigmoid (cplx.py:268-301, 326-408)
+/-! ### division, modulus, sigmoid (cplx.py:268-301, 326-408 of the tree with `proposed/F17_all.diff` applied)
 
 The formulas are those of the code AFTER the proposed repairs F17 (`proposed/F17_*.diff`): the modulus is `torch.hypot`,
 quotients scale the divisor by its larger component before `|·|²` is formed, `norm` scales by the largest component, the
@@ -639,7 +639,7 @@ def elementwiseDivision (x y : Tensor α) : Except PyErr (Tensor α) :=
     let p ← elementwiseMult x' ys
     bop (fun a b => a / b) p sq
 
-/-- `inverse(z)` (cplx.py:360-380, after F17_division): with `scale` the larger component of `z` and `w = z/scale`,
+/-- `inverse(z)` (cplx.py:364-380, after F17_division): with `scale` the larger component of `z` and `w = z/scale`,
 `conj(w) / real(scalar_mult(w, conj(w))) / scale` -/
 def inverse (z : Tensor α) : Except PyErr (Tensor α) := do
   let sc ← cscale z
@@ -650,7 +650,7 @@ def inverse (z : Tensor α) : Except PyErr (Tensor α) := do
   let q ← bop (fun a b => a / b) zs den
   bop (fun a b => a / b) q sc
 
-/-- `scalar_divide(x, y) = scalar_mult(x, inverse(y))` (cplx.py:344-357) -/
+/-- `scalar_divide(x, y) = scalar_mult(x, inverse(y))` (cplx.py:348-361) -/
 def scalarDivide (x y : Tensor α) : Except PyErr (Tensor α) := do
   let iy ← inverse y
   scalarMult x iy
@@ -658,7 +658,7 @@ def scalarDivide (x y : Tensor α) : Except PyErr (Tensor α) := do
 /-- `x.abs().max()` of a non-empty tensor -/
 def maxAbs (l : List α) : α := l.foldl (fun acc v => Transc.max acc (Transc.abs v)) 0
 
-/-- `norm(x)` (cplx.py:394-408, after F17_norm): `scale = x.abs().max()` (1 for the zero tensor),
+/-- `norm(x)` (cplx.py:395-408, after F17_norm): `scale = x.abs().max()` (1 for the zero tensor),
 `norm_sqr(x / scale).sqrt_().mul_(scale)` -/
 def norm (x : Tensor α) : Except PyErr (Tensor α) := do
   let m := maxAbs x.data
@@ -680,7 +680,7 @@ def sigC (z : C α) : C α :=
     let e := expC z
     C.div e (1 + e.1, e.2)
 
-/-- `sigmoid(x, y)` (cplx.py:326-346) of two REAL tensors: numpy broadcasting of `x + 1j*y`
+/-- `sigmoid(x, y)` (cplx.py:326-345) of two REAL tensors: numpy broadcasting of `x + 1j*y`
 (`ValueError` when they do not broadcast), then `[real(out), imag(out)]` -/
 def sigmoid (x y : Tensor α) : Except PyErr (Tensor α) :=
   match broadcastShape x.shape y.shape with
